@@ -310,7 +310,7 @@ def run_one(tape: Any, cfg: Dict[str, Any], forbid: FrozenSet[str] = frozenset()
                                       'closed_by_sub': ch['closed_by_sub'], 'relay': ch['relay'] is not None} for ch in channels]}
         from . import finish
         if w.hung:
-            w.fail('hang', 'step-or-time-cap', 'run hit the step / virtual-time cap')
+            scen.hang_failure(w)
         return finish(res, w)
 
 
